@@ -337,7 +337,7 @@ def probes(quick):
 
 # ----------------------------------------------------------------- server level
 def server_level(ctx, rng, hostile_cmds, hostile_handshakes):
-    """every hostile packet at command phase: exactly one ERR and in step (or a normal response), or close with
+    """every hostile packet at command phase, after every kind of preceding command (PING, no-response commands, query, prepare): exactly one ERR and in step (or a normal response), or close with
     the registration released; a witness connection and a fresh connection keep being served."""
     problems = []
     n = 0
@@ -591,7 +591,9 @@ def run(ctx: core.Ctx):
         rule="every truncation of, and field mutations (length/count bytes set to 0/250..255/2^16/2^24/2^64-1 prefixes, terminators "
              "removed, bit flips, deletions) of valid COM_QUERY(+attributes), COM_STMT_EXECUTE, handshake responses in 7 capability "
              "variants, SSL request, COM_CHANGE_USER packets, plus random payloads: result class and fields of the real parser vs the "
-             "Coq model, implementation under an 8 s watchdog; scaling probes (16 KiB -> 256 KiB/1 MiB) of every variable-length field "
+             "Coq model, implementation under an 8 s watchdog; at server level every hostile packet follows one of eight kinds of preceding "
+             "command (PING, COM_STMT_CLOSE / COM_STMT_SEND_LONG_DATA for known and unknown statements, query, prepare) and a command left "
+             "without any answer is reported; scaling probes (16 KiB -> 256 KiB/1 MiB) of every variable-length field "
              "counting Python line events and time; hostile packets at command phase and as handshake response on a live server with "
              "a witness connection. distinct = distinct (parser, packet)",
         samples=samples, distinct=len(distinct),
